@@ -70,7 +70,7 @@ def inputs(tier, seed):
     return out
 
 
-OPTS = [{}, {"safe": True}, {"keep_imports": True}, {"preserve": frozenset({"f", "C", "x"})}]
+OPTS = [{}, {"safe": True}, {"keep_imports": True}, {"preserve": frozenset({"f", "C", "x"})}, {"preserve": ("f", "y")}, {"preserve": ["x"], "safe": True}]
 
 
 def work(item):
